@@ -4,6 +4,8 @@
 //	              (anywhere in package security) and of ccb.brokerReg, with the
 //	              locks held at that point (from the Lock/RLock/Unlock/defer
 //	              structure, in source order)
+//	cs_facts      per function of package security: how many times SessionCache.mu is
+//	              acquired and whether the function writes a SessionCache field
 //	var_facts     accesses to the package-level variables of session_manager.go
 //	auth_sites    every call of security.NewAuthenticator in the library packages,
 //	              with the kind of its configuration argument
@@ -188,6 +190,60 @@ func lockWalk(p *loadedPkg, name string, body *ast.BlockStmt, watched map[string
 	})
 	for i, l := range lits {
 		lockWalk(p, fmt.Sprintf("%s$%d", name, i+1), l.Body, watched, out)
+	}
+}
+
+type csFact struct {
+	fn, lock string
+	regions  int
+	writes   bool
+}
+
+// csWalk counts, per function body (function literals separately), how many
+// times each watched struct's mutex is acquired (Lock or RLock) and whether the
+// body writes a field of that struct: a read-decide-write on guarded state is
+// atomic only if it happens inside ONE critical section.
+func csWalk(p *loadedPkg, name string, body *ast.BlockStmt, watched map[string]bool, out *[]csFact) {
+	w := writeTargets(body)
+	regions := map[string]int{}
+	writes := map[string]bool{}
+	var lits []*ast.FuncLit
+	ast.Inspect(body, func(n ast.Node) bool {
+		switch v := n.(type) {
+		case *ast.FuncLit:
+			lits = append(lits, v)
+			return false
+		case *ast.CallExpr:
+			if sel, ok := v.Fun.(*ast.SelectorExpr); ok && (sel.Sel.Name == "Lock" || sel.Sel.Name == "RLock") {
+				if inner, ok := ast.Unparen(sel.X).(*ast.SelectorExpr); ok {
+					if s, ok := p.Info.Selections[inner]; ok && s.Kind() == types.FieldVal {
+						ts := s.Type().String()
+						if nn := namedOf(s.Recv()); nn != nil && watched[nn.Obj().Name()] && (ts == "sync.Mutex" || ts == "sync.RWMutex") {
+							regions[nn.Obj().Name()+"."+inner.Sel.Name]++
+						}
+					}
+				}
+			}
+		case *ast.SelectorExpr:
+			if s, ok := p.Info.Selections[v]; ok && s.Kind() == types.FieldVal && w[v] {
+				if nn := namedOf(s.Recv()); nn != nil && watched[nn.Obj().Name()] {
+					writes[nn.Obj().Name()] = true
+				}
+			}
+		}
+		return true
+	})
+	var keys []string
+	for k := range regions {
+		keys = append(keys, k)
+	}
+	sort.Strings(keys)
+	for _, k := range keys {
+		owner := k[:strings.Index(k, ".")]
+		*out = append(*out, csFact{name, k, regions[k], writes[owner]})
+	}
+	for i, l := range lits {
+		csWalk(p, fmt.Sprintf("%s$%d", name, i+1), l.Body, watched, out)
 	}
 }
 
@@ -695,6 +751,7 @@ func factsC17(b *strings.Builder) error {
 	}
 	sec, ccb, str := pk["security"], pk["ccb"], pk["stream"]
 	var accs []access
+	var css []csFact
 	var vfs []varFact
 	vars := map[types.Object]bool{}
 	for i, file := range sec.Files {
@@ -720,6 +777,7 @@ func factsC17(b *strings.Builder) error {
 				continue
 			}
 			lockWalk(sec, funcKey(sec, fd), fd.Body, map[string]bool{"SessionCache": true, "SessionEntry": true}, &accs)
+			csWalk(sec, funcKey(sec, fd), fd.Body, map[string]bool{"SessionCache": true}, &css)
 			varWalk(sec, funcKey(sec, fd), fd, vars, &vfs)
 		}
 	}
@@ -762,6 +820,14 @@ func factsC17(b *strings.Builder) error {
 			sep = ""
 		}
 		fmt.Fprintf(b, "  mk_lf %s %s A%s %s %s%s\n", coqStr(a.fn), coqStr(a.field), a.rw, coqStr(a.base), heldTerm(a.held), sep)
+	}
+	b.WriteString("].\n\nDefinition cs_facts : list cs_fact := [\n")
+	for i, c := range css {
+		sep := ";"
+		if i == len(css)-1 {
+			sep = ""
+		}
+		fmt.Fprintf(b, "  mk_cs %s %s %d %s%s\n", coqStr(c.fn), coqStr(c.lock), c.regions, map[bool]string{true: "true", false: "false"}[c.writes], sep)
 	}
 	b.WriteString("].\n\nDefinition var_facts : list var_fact := [\n")
 	for i, v := range vfs {
